@@ -12,6 +12,7 @@ from decimal import Decimal
 from lib import heap, monitors, reflex, refparser, refeval
 
 ID = 'C10'
+TECHNIQUE = 'runtime monitor: scope-stack invariants at every node exit/raise (M1+M4), independent re-resolution of every lookup, R2 differential'
 RULE = ('scoping scenarios: programs of 2-9 statements over a small pool of names bound at one, two or all three levels (builtins len/str/max/upper/sum, host names, '
         'lambda parameters/locals): lambdas with free names resolved at call time, parameters named like builtins and host names, calls with too few/too many arguments, '
         'top-level (re)assignment of builtin/host names between two calls of the same lambda, nested and re-entrant (recursive) calls, lambdas driven by map/filter/reduce/sorted '
